@@ -52,7 +52,8 @@ class ContractTask(Task):
             return [None]
         reg = self.regfactory()
         paths, st = C.explore(lambda ctx: C.run_contract_path(c, reg, ctx), max_paths=c.max_paths)
-        units = [pr.decisions for pr in paths]
+        # a path that ended because no option was feasible is replayed up to that point only
+        units = [pr.decisions + (["END"] if pr.outcome == "end:infeasible" else []) for pr in paths]
         if st["truncated"]:
             units.append("TRUNCATED")
         return units
